@@ -25,6 +25,7 @@ import (
 	"runtime"
 	"sort"
 	"sync"
+	"time"
 
 	"github.com/pingcap/log"
 	"github.com/tikv/pd/server/statistics"
@@ -99,7 +100,10 @@ func main() {
 	schedCalls := r.Pick(60, 120)
 
 	var fatal sync.Once
+	phaseSeconds := map[string]float64{} // diagnostics only, never part of a verdict
 	run := func(n int, phase int64, f func(s *stats, rng *rand.Rand) error) {
+		t0 := time.Now()
+		defer func() { phaseSeconds[fmt.Sprintf("phase_%d", phase)] = time.Since(t0).Seconds() }()
 		var wg sync.WaitGroup
 		for wk := 0; wk < workers; wk++ {
 			wg.Add(1)
@@ -125,10 +129,21 @@ func main() {
 	merge(cs)
 
 	run(scatterWorlds, 1, func(s *stats, rng *rand.Rand) error {
-		return scatterWorld(s, rng, scatterRegions, scatterRounds)
+		return scatterWorld(s, rng, scatterRegions, scatterRounds, 0)
 	})
 	run(schedWorlds, 2, func(s *stats, rng *rand.Rand) error {
-		return schedWorld(s, rng, schedRegions, schedCalls)
+		return schedWorld(s, rng, schedRegions, schedCalls, 0)
+	})
+	// worlds at scale: hundreds of stores, dozens of scatter groups, regions of 5-9 peers
+	run(r.Pick(3, 4), 4, func(s *stats, rng *rand.Rand) error {
+		return scatterWorld(s, rng, r.Pick(80, 150), 2, 1)
+	})
+	run(r.Pick(2, 4), 5, func(s *stats, rng *rand.Rand) error {
+		return schedWorld(s, rng, r.Pick(120, 250), r.Pick(30, 80), 2)
+	})
+	// overlapped entry points on one cluster: scatter clients, scheduler goroutines, heartbeats
+	run(r.Pick(6, 12), 6, func(s *stats, rng *rand.Rand) error {
+		return concurrentWorld(s, rng, r.Pick(100, 300), r.Pick(80, 250))
 	})
 	// batch API with retries: the cluster changes between the failed first attempt and the retry
 	run(r.Pick(48, 96), 3, func(s *stats, rng *rand.Rand) error {
@@ -148,6 +163,7 @@ func main() {
 			r.Sample(s)
 		}
 	}
+	r.Set("phase_wall_seconds_diagnostic", phaseSeconds)
 	r.Set("scatter_worlds", scatterWorlds)
 	r.Set("scheduler_worlds", schedWorlds)
 	for _, m := range total.incon {
